@@ -47,16 +47,25 @@ def gen_wsd(rng, tier):
         nown = rng.randrange(3, 11 if quick else 17)
         threads = [",".join(owner_ops(rng, nown, nxt))]
         for _ in range(nthieves):
-            ns = rng.randrange(1, 5 if quick else 8)
+            ns = rng.randrange(2, 7 if quick else 10)
             threads.append(",".join(["s"] * ns))
         cases.append({"args": [k, "|".join(threads)], "env": sched_env(rng)})
     return cases
 
 
+def _rt_part():
+    from specs_c01 import PART_RT
+    return PART_RT
+
+
 SPEC = {
     "C02": {
-        "parts": [{"name": "wsd", "harness": "wsd", "model": "Wsd", "gen": gen_wsd}],
+        # second part: the whole runtime (model Rt, shared with C01): every schedule of a fiber
+        # is consumed by exactly one switch to it; nothing is queued when all threads are idle
+        "parts": [{"name": "wsd", "harness": "wsd", "model": "Wsd", "gen": gen_wsd}, _rt_part()],
         "trusted_base": [
+            "runtime half: run queues as bags at the deque API (rqpush/rqpop/rqsteal call-site events) in model Rt; "
+            "idle = the runtime's tick note (every kernel thread polled and found nothing for several rounds)",
             "64-bit wrap-around of top/bottom not modelled (2^63 pushes unreachable)",
             "harness/wsd.c routes the deque file's malloc through a zero-filling allocator that "
             "registers each array generation's slots (the C file itself is compiled unchanged)",
